@@ -178,10 +178,15 @@ func c16Marshaler(e *Env, f gen.Format, cfgd CfgDesc, n int) Outcome {
 		// that modifies its argument (a matter for another property) cannot
 		// make the reused and the fresh side see different inputs.
 		var draws []uint64
+		wrap := false
 		switch {
 		case what == 0 && prev != nil:
 			// the same value again (same types: cache hits, repeated unsupported kinds)
 			draws, vo = prevDraws, prevVo
+		case what == 5 && prev != nil:
+			// a pointer to the previous value: a new top-level type whose element
+			// type this instance has already met (successfully or not)
+			draws, vo, wrap = prevDraws, prevVo, true
 		default:
 			if what == 1 || what == 2 {
 				vo.Unsupported = true
@@ -192,7 +197,13 @@ func c16Marshaler(e *Env, f gen.Format, cfgd CfgDesc, n int) Outcome {
 				draws = append(draws, r.V)
 			}
 		}
-		mkVal := func() gen.Val { return gen.DrawValue(tape.Replay(draws), vo) }
+		mkVal := func() gen.Val {
+			v := gen.DrawValue(tape.Replay(draws), vo)
+			if wrap {
+				v.V, v.Desc = gen.PointerTo(v.V), "*"+v.Desc
+			}
+			return v
+		}
 		val = mkVal()
 		prev, prevDraws, prevVo = &val, draws, vo
 		plan := simio.WriterPlan{}
@@ -234,6 +245,14 @@ func c16Unmarshaler(e *Env, f gen.Format, cfgd CfgDesc, n int) Outcome {
 		return ce.NewCTEUnmarshaler(cfg)
 	}
 	reusedInst := mk()
+	// one or two template types used again and again with different documents:
+	// the natural use of a reused unmarshaler
+	var typeSpecs []gen.TypeSpec
+	for i := 1 + t.Intn("n-typespecs", 2); i > 0; i-- {
+		vo := gen.DrawValOpts(t)
+		vo.Unsupported = t.Chance("typespec-unsupported", 1, 6)
+		typeSpecs = append(typeSpecs, gen.DrawType(t, vo))
+	}
 	return c16Drive(e, sc, &sig, n, func(i int) (string, bool, func() opResult, func() opResult) {
 		o := gen.DrawOpts(t)
 		doc, rej := gen.DrawDoc(t, f, o, configurationDefault)
@@ -241,7 +260,34 @@ func c16Unmarshaler(e *Env, f gen.Format, cfgd CfgDesc, n int) Outcome {
 		b := doc.Bytes
 		desc := "unmarshal-valid"
 		failing := false
-		switch t.Intn("op-kind", 6) {
+		tmpl := c07Templates[0]
+		kind := t.Intn("op-kind", 8)
+		if kind >= 6 {
+			// a new value of one of the run's types, marshaled by an unrelated
+			// fresh marshaler, unmarshaled into a template of that type
+			ts := typeSpecs[t.Intn("typespec", len(typeSpecs))]
+			val := ts.NewValue(t)
+			var vdoc []byte
+			var merr error
+			if f == gen.CBE {
+				vdoc, merr = ce.MarshalToCBEDocument(val.V, cfg)
+			} else {
+				vdoc, merr = ce.MarshalToCTEDocument(val.V, cfg)
+			}
+			if merr == nil && len(vdoc) > 0 {
+				b, doc = vdoc, &gen.Doc{Format: f, Bytes: vdoc}
+				desc = "unmarshal-value:" + ts.Desc
+				tmpl.name, tmpl.mk = ts.Desc, val.New
+				if kind == 7 && len(b) > 3 {
+					k := 1 + t.Intn("cut", len(b)-1)
+					b = b[:k]
+					desc = fmt.Sprintf("unmarshal-value-truncated:%d:%s", k, ts.Desc)
+					failing = true
+					e.Count("fault:truncation", 1)
+				}
+			}
+		}
+		switch kind {
 		case 0:
 			fs := simio.DrawStorageFaults(t, 1+t.Intn("n-sf", 2), len(b), lengthOffsets(doc))
 			b = simio.Apply(b, fs)
@@ -257,8 +303,7 @@ func c16Unmarshaler(e *Env, f gen.Format, cfgd CfgDesc, n int) Outcome {
 				e.Count("fault:truncation", 1)
 			}
 		}
-		tmpl := c07Templates[0]
-		if t.Chance("typed-template", 1, 3) {
+		if kind < 6 && t.Chance("typed-template", 1, 3) {
 			tmpl = c07Templates[t.Intn("template", len(c07Templates))]
 			desc += " template=" + tmpl.name
 		}
